@@ -32,10 +32,11 @@ type c17vGen struct {
 	once    sync.Once
 	done    []chan struct{}
 	begun   []int32
+	left    []int32
 }
 
 func newC17vGen(n int) *c17vGen {
-	g := &c17vGen{release: make(chan struct{}), done: make([]chan struct{}, n), begun: make([]int32, n)}
+	g := &c17vGen{release: make(chan struct{}), done: make([]chan struct{}, n), begun: make([]int32, n), left: make([]int32, n)}
 	for i := range g.done {
 		g.done[i] = make(chan struct{})
 	}
@@ -53,7 +54,8 @@ func (g *c17vGen) started(i int) bool {
 }
 
 func (g *c17vGen) finish(i int) {
-	if g != nil && i < len(g.done) {
+	// (a listener started late by an earlier restore can come by a second time)
+	if g != nil && i < len(g.done) && atomic.CompareAndSwapInt32(&g.left[i], 0, 1) {
 		close(g.done[i])
 	}
 }
@@ -99,7 +101,7 @@ var c17vWriterWait = 400 * time.Millisecond
 // c17vPregrow: grow the bolt file / its memory map once and free the pages again (three commits: the pages freed
 // by the second one become usable once a later transaction has committed); the content is unchanged
 func (h *c17Run) c17vPregrow() {
-	if h.db.Stats().FreePageN >= 24 {
+	if h.db.Stats().FreePageN >= 14 {
 		return
 	}
 	filler := []byte("c17v-filler")
@@ -109,7 +111,7 @@ func (h *c17Run) c17vPregrow() {
 			return err
 		}
 		val := []byte(strings.Repeat("x", 1024))
-		for i := 0; i < 160; i++ {
+		for i := 0; i < 60; i++ {
 			if err = b.Put([]byte(fmt.Sprintf("filler-%04d", i)), val); err != nil {
 				return err
 			}
